@@ -5,14 +5,19 @@
 (* (writers/file_writer.py): path-based files are opened lazily with        *)
 (* "wb+" (named deviation ReopenTruncates: a path writer used again after   *)
 (* teardown re-creates its file, so "the lines written so far" is per open  *)
-(* session), are buffered until flush() / close(); file objects and custom  *)
-(* writers see every line at once and are never closed by the builder.      *)
+(* session), are buffered until flush() / close(); in-memory file objects   *)
+(* and custom writers see every line at once and are never closed by the    *)
+(* builder.  "ufile" is a real file the USER opened: buffered like a path,  *)
+(* never truncated or closed by the builder; disconnect() flushes it.       *)
+(* Named deviation TeardownSkipsUserFiles = the code before fix F23, where  *)
+(* disconnect() only dropped its reference (Flushed is then violated).      *)
 (***************************************************************************)
 EXTENDS Writers, TLC
 
 CONSTANTS W,         \* writer ids
           KindOf,    \* [W -> Kinds]
-          MaxLines
+          MaxLines,
+          TeardownSkipsUserFiles   \* BOOLEAN, see above
 
 VARIABLES reg, open, pend, disk, exp, n, last
 vars == <<reg, open, pend, disk, exp, n, last>>
@@ -35,6 +40,7 @@ RemoveW ==
      /\ last' = [act |-> "remove", w |-> w]
      /\ UNCHANGED <<open, pend, disk, exp, n>>
 
+Buffered(w) == KindOf[w] \in {"path", "ufile"}
 Write ==
   /\ n < MaxLines
   /\ n' = n + 1
@@ -42,9 +48,11 @@ Write ==
      /\ open' = [w \in W |-> open[w] \/ w \in R]
      /\ pend' = [w \in W |-> IF w \in R /\ KindOf[w] = "path"
                                THEN (IF open[w] THEN Append(pend[w], k) ELSE <<k>>)      \* ReopenTruncates
+                               ELSE IF w \in R /\ KindOf[w] = "ufile" THEN Append(pend[w], k)
                                ELSE pend[w]]
      /\ disk' = [w \in W |-> IF w \notin R THEN disk[w]
                                ELSE IF KindOf[w] = "path" THEN (IF open[w] THEN disk[w] ELSE <<>>)
+                               ELSE IF KindOf[w] = "ufile" THEN disk[w]
                                ELSE Append(disk[w], k)]
      /\ exp'  = [w \in W |-> IF w \notin R THEN exp[w]
                                ELSE IF KindOf[w] = "path" /\ ~open[w] THEN <<k>>
@@ -52,15 +60,17 @@ Write ==
   /\ last' = [act |-> "write", w |-> 0]
   /\ UNCHANGED reg
 
-FlushOne(w, d, p) == IF KindOf[w] = "path" /\ open[w] THEN d \o p ELSE d
+\* FileWriter.flush() reaches the file only while the writer is connected (_file is not None)
+FlushOne(w, d, p) == IF Buffered(w) /\ open[w] THEN d \o p ELSE d
+Skipped(w) == TeardownSkipsUserFiles /\ KindOf[w] = "ufile"
 Flush ==
   /\ disk' = [w \in W |-> IF w \in RangeOf(reg) THEN FlushOne(w, disk[w], pend[w]) ELSE disk[w]]
-  /\ pend' = [w \in W |-> IF w \in RangeOf(reg) /\ KindOf[w] = "path" /\ open[w] THEN <<>> ELSE pend[w]]
+  /\ pend' = [w \in W |-> IF w \in RangeOf(reg) /\ Buffered(w) /\ open[w] THEN <<>> ELSE pend[w]]
   /\ last' = [act |-> "flush", w |-> 0]
   /\ UNCHANGED <<reg, open, exp, n>>
 Teardown ==
-  /\ disk' = [w \in W |-> IF w \in RangeOf(reg) THEN FlushOne(w, disk[w], pend[w]) ELSE disk[w]]
-  /\ pend' = [w \in W |-> IF w \in RangeOf(reg) /\ KindOf[w] = "path" /\ open[w] THEN <<>> ELSE pend[w]]
+  /\ disk' = [w \in W |-> IF w \in RangeOf(reg) /\ ~Skipped(w) THEN FlushOne(w, disk[w], pend[w]) ELSE disk[w]]
+  /\ pend' = [w \in W |-> IF w \in RangeOf(reg) /\ Buffered(w) /\ open[w] /\ ~Skipped(w) THEN <<>> ELSE pend[w]]
   /\ open' = [w \in W |-> open[w] /\ w \notin RangeOf(reg)]
   /\ reg' = <<>>
   /\ last' = [act |-> "teardown", w |-> 0]
@@ -71,7 +81,7 @@ Spec == Init /\ [][Next]_vars
 
 -----------------------------------------------------------------------------
 NoDuplicates == Cardinality(RangeOf(reg)) = Len(reg)
-Delivery     == \A w \in W : DeliveredOK(KindOf[w], disk[w], exp[w]) /\ (KindOf[w] = "path" => disk[w] \o pend[w] = exp[w] \/ ~open[w])
+Delivery     == \A w \in W : DeliveredOK(KindOf[w], disk[w], exp[w]) /\ (KindOf[w] = "path" => disk[w] \o pend[w] = exp[w] \/ ~open[w]) /\ (KindOf[w] = "ufile" => disk[w] \o pend[w] = exp[w])
 Flushed      == [][last'.act \in {"flush", "teardown"} => \A w \in RangeOf(reg) : FlushedOK(disk'[w], exp'[w])]_vars
 TornDown     == [][last'.act = "teardown" => (reg' = <<>> /\ \A w \in RangeOf(reg) : ~open'[w])]_vars
 \* exactly once, in order: what a writer was given is strictly increasing line ids
